@@ -119,6 +119,10 @@ func newH(c *sim.Case, w *sim.World, nb int, mons ...monitor) *H {
 	for i := 0; i < nb; i++ {
 		h.bs = append(h.bs, w.NewBrowser(fmt.Sprintf("%c", 'a'+i)))
 	}
+	if nb > 1 {
+		// the second browser also holds cookies that are none of the service's business
+		h.bs[1].Extra, h.bs[1].After = []string{"theme=dark"}, []string{"_ga=GA1.2.3"}
+	}
 	h.lastLoc = make([]string, nb)
 	h.pending = make([]string, nb)
 	h.lastTgt = make([]string, nb)
@@ -484,7 +488,12 @@ func (h *H) exec(o *op) {
 		if h.w.Cfg.GetLogout() == nil {
 			return
 		}
-		h.do(o, b, b.ReqFor("/logout"))
+		req := b.ReqFor("/logout")
+		if o.N == 1 {
+			// the same cookies without the optional space after ';' (servers are to accept both forms)
+			req.Headers["cookie"] = strings.ReplaceAll(req.Headers["cookie"], "; ", ";")
+		}
+		h.do(o, b, req)
 	case "advance":
 		d := o.D
 		if o.Rel == "idle" {
@@ -753,6 +762,7 @@ func genOps(c *sim.Case, p opProfile, maxOps int) []op {
 			o.K = "callback"
 		case 4:
 			o.K = "logout"
+			o.N = sim.Pick(c, "logout.compact-cookies", 2)
 		case 5:
 			o.K = "advance"
 			genAdvance(c, &o)
